@@ -318,7 +318,9 @@ pub enum AbuseOp {
     RapidReset { count: u32, code: u32, authority: String, path: String, end_stream: bool, rate: Rate },
     /// HEADERS without END_HEADERS on a fresh stream, then `count` CONTINUATION frames each with one
     /// literal field of about `frag_len` bytes (0 = empty frames); `finish` sets END_HEADERS on the last
-    ContinuationFlood { count: u32, frag_len: u32, finish: bool, authority: String, rate: Rate },
+    /// `prelude`: (n, block) - first a complete header block (HEADERS + n CONTINUATION frames, END_HEADERS on the last) on a
+    /// stream of its own
+    ContinuationFlood { count: u32, frag_len: u32, finish: bool, authority: String, rate: Rate, prelude: Option<(u32, Vec<u8>)> },
     PingFlood { count: u32, ack: bool, rate: Rate },
     SettingsFlood { count: u32, params: Vec<(u16, u32)>, rate: Rate },
     /// POST on a fresh stream, then `count` empty DATA frames
@@ -1617,8 +1619,15 @@ impl H2Peer {
                     self.emit_header_block(id, &b, *end_stream, &[], None, None);
                     self.send_rst(now, id, *code);
                 }
-                AbuseOp::ContinuationFlood { count, frag_len, finish, authority, .. } => {
+                AbuseOp::ContinuationFlood { count, frag_len, finish, authority, prelude, .. } => {
                     if i == 0 {
+                        if let Some((n, block)) = prelude {
+                            let pid = self.fresh_stream(now);
+                            self.push_frame(&Frame::Headers { stream: pid, end_stream: true, end_headers: false, priority: None, fragment: block.clone(), pad: None });
+                            for k in 1..=*n { self.push_frame(&Frame::Continuation { stream: pid, end_headers: k == *n, fragment: vec![] }); }
+                            self.mark(Mark::EndStream(pid));
+                            if let Some(s) = self.rec.streams.get_mut(&pid) { s.sent_end = true; }
+                        }
                         let id = self.fresh_stream(now);
                         self.abuse_stream = id;
                         let b = self.plain_request_block("GET", authority, "/continuation-flood", &[]);
